@@ -260,6 +260,16 @@ fn gen_case_random(seed: u64, i: u64, tier: &str) -> Case {
 }
 
 fn ipp_response(code: u16, id: u32, printer: Option<(i32, &[String])>) -> Vec<u8> {
+    ipp_response_filtered(code, id, printer, None)
+}
+
+fn ipp_response_filtered(code: u16, id: u32, printer: Option<(i32, &[String])>, requested: Option<&[String]>) -> Vec<u8> {
+    let wanted = |name: &str| -> bool {
+        match requested {
+            None => true,
+            Some(r) => r.iter().any(|k| k == name || k == "all" || k == "printer-description"),
+        }
+    };
     let mut op = BTreeMap::new();
     op.insert("attributes-charset".to_string(), MVal::Text { tag: 0x47, s: "utf-8".into() });
     op.insert("attributes-natural-language".to_string(), MVal::Text { tag: 0x48, s: "en".into() });
@@ -267,12 +277,19 @@ fn ipp_response(code: u16, id: u32, printer: Option<(i32, &[String])>) -> Vec<u8
     match printer {
         Some((state, reasons)) => {
             let mut p = BTreeMap::new();
-            p.insert("printer-state".to_string(), MVal::Enum(state));
-            if !reasons.is_empty() {
+            if wanted("printer-state") {
+                p.insert("printer-state".to_string(), MVal::Enum(state));
+            }
+            if !reasons.is_empty() && wanted("printer-state-reasons") {
                 let v: Vec<MVal> = reasons.iter().map(|s| MVal::Text { tag: 0x44, s: s.clone() }).collect();
                 p.insert("printer-state-reasons".to_string(), MVal::Set(v).normalize());
             }
-            p.insert("printer-name".to_string(), MVal::Text { tag: 0x42, s: "verif".into() });
+            if wanted("printer-name") {
+                p.insert("printer-name".to_string(), MVal::Text { tag: 0x42, s: "verif".into() });
+            }
+            if wanted("printer-state-message") {
+                p.insert("printer-state-message".to_string(), MVal::Text { tag: 0x41, s: "scripted printer".into() });
+            }
             groups.push(MGroup { tag: 4, attrs: p });
         }
         None => {
@@ -300,9 +317,15 @@ fn run_one(srv: &Arc<Server>, ipputil: &str, work: &str, c: Case) -> Outcome {
         &c.id,
         Arc::new(move |r: &Req| {
             let w = ippref::decode_strict(&r.body, &Strictness { bodies: false, unique_names: false });
+            // a conforming printer returns only what requested-attributes names (RFC 8011 4.2.5); 'all' or a group name = everything
+            let requested: Option<Vec<String>> = w.as_ref().ok().and_then(|w| {
+                w.groups.iter().filter(|g| g.tag == 1).flat_map(|g| g.attrs.iter()).find(|a| a.name == b"requested-attributes").map(|a| {
+                    a.values.iter().filter_map(|v| if let ippref::WVal::Scalar { body, .. } = v { Some(String::from_utf8_lossy(body).into_owned()) } else { None }).collect()
+                })
+            });
             let (op, id) = w.map(|w| (w.code, w.id)).unwrap_or((0, 0));
             if op == 0x000b {
-                Plan { status: cc.gpa_http, ..Plan::ok(ipp_response(cc.gpa_status, id, Some((cc.state, &cc.reasons)))) }
+                Plan { status: cc.gpa_http, ..Plan::ok(ipp_response_filtered(cc.gpa_status, id, Some((cc.state, &cc.reasons)), requested.as_deref())) }
             } else {
                 Plan { status: cc.job_http, ..Plan::ok(ipp_response(cc.job_status, id, None)) }
             }
